@@ -69,8 +69,7 @@ def run(tier):
     for nm, ts in by.items():
         labels.append(nm)
         recs.append({'finals': [final_outcome(t) for t in ts]})
-    for f in ('EngineProps.tla', 'EngineDetTrace.tla'):
-        shutil.copy(os.path.join(common.SPEC, 'engine', f), d)
+    common.put_spec(d, *[os.path.join('engine', f_) for f_ in ('EngineProps.tla', 'EngineDetTrace.tla')])
     tf = os.path.join(d, 'det.ndjson')
     with open(tf, 'w') as fh:
         for r_ in recs:
